@@ -8,6 +8,7 @@ what `begin_parse` shows, `ord` = "ordinary cell"; `Laws` = a constructed cell s
 from and is ordinary.
 -/
 import TonVerif.Proofs.VmStack
+import TonVerif.Proofs.VmStackInv
 namespace TonVerif.C17
 open TonVerif TonVerif.Model TonVerif.Model.Vm TonVerif.Spec.Vm TonVerif.Proofs.Vm
 
@@ -68,25 +69,92 @@ example : ((serializeSt true mkTree [Val.tuple [.int 3, .int 2, .int 1]]).1.map 
   decide +kernel
 
 
-/-
-`c17_roundtrip` (full statement, NOT proved):
+/-- `c17_parser_accepts_schema`: the parser accepts every schema-valid encoding and returns the encoded values.
+    If the content of cell `c` is an encoding of the stack `vs` under the VmStack schema of block.tlb (`IsStack`:
+    any depth < 2^24, any nesting of tuples, all ten continuation kinds, control data with or without a stack and
+    a save list, tinyint / int257 in canonical form), then `VmStack.deserialize(c.begin_parse())` returns exactly
+    `vs` — same values, same order — and leaves nothing of the cell unread.  `fuel` is the model's recursion budget
+    (one unit per nested call; Python has none): the result is the same for every budget ≥ `fuelL vs`, an explicit
+    bound linear in the size of `vs` (`Proofs/VmStackInv.lean`). -/
+theorem c17_parser_accepts_schema (vs : List (Val R)) (c : R) (h : IsStack view ord vs (view c).1 (view c).2)
+    (fuel : Nat) (hf : fuelL vs ≤ fuel) :
+    De.stack view ord fuel ⟨(view c).1, (view c).2⟩ = (⟨[], []⟩, some vs) :=
+  de_stack_cell h fuel hf
 
-    theorem c17_roundtrip (L : Laws mk view ord) (vs : List (Val R)) (c : R) (h : serialize mk vs = some c) :
-        ∃ n, ∀ fuel, n ≤ fuel → deserialize view ord fuel c = some vs
+/-- `c17_roundtrip`: for every stack `vs` of supported values — null, integers (64-bit and 257-bit form), cells,
+    slices, builders, arbitrarily nested tuples, all ten continuation kinds with their control data — whenever
+    `VmStack.serialize(vs)` returns a cell `c`, `VmStack.deserialize(c.begin_parse())` returns `vs`: equal values in
+    the same order.  (`Laws`: a constructed cell shows the data it was built from and is ordinary.) -/
+theorem c17_roundtrip (L : Laws mk view ord) (vs : List (Val R)) (c : R) (h : serialize mk vs = some c)
+    (fuel : Nat) (hf : fuelL vs ≤ fuel) : deserialize view ord fuel c = some vs := by
+  rw [deserialize, c17_parser_accepts_schema vs c (c17_schema L vs c h) fuel hf]
 
-Planned route: `c17_schema` (proved above) composed with "the model parser inverts the schema relation"
-(`IsStack view ord vs b r → De.stack … ⟨b ++ b', r ++ r'⟩ = (⟨b', r'⟩, some vs)`), by recursion over the
-derivation.  Proved so far are the leaves of that recursion — every scalar field and the VmCellSlice record
-(`c17_roundtrip_partial` below).  Missing: the tag dispatch of `VmStackValue.deserialize` (15-bit / 2-byte
-preload), the `VmTuple`/`VmTupleRef`/`VmStackList` recursions, the ten `VmCont` branches and `VmControlData`.
-Until then the round trip of whole stacks is checked on the library and against the model by sampling only.
--/
+/-- the round trip is injective: two stacks that serialise to the same cell are the same stack -/
+theorem c17_serialize_injective (L : Laws mk view ord) (vs ws : List (Val R)) (c : R)
+    (h1 : serialize mk vs = some c) (h2 : serialize mk ws = some c) : vs = ws := by
+  have a := c17_roundtrip L vs c h1 (fuelL vs + fuelL ws) (by omega)
+  have b := c17_roundtrip L ws c h2 (fuelL vs + fuelL ws) (by omega)
+  rw [a] at b; exact Option.some.inj b
 
-/-- `c17_roundtrip_partial` (fields): what the serialiser writes for an `intN` / `uintN` field and for a
-    `VmCellSlice` record is read back by the parser's `load_int(n)` / `load_uint(n)` / `VmCellSlice.deserialize`
+/-- non-vacuity of `c17_roundtrip`: two stacks (top first) that together use every value constructor, every
+    continuation kind, control data with and without stack / save list / nargs / cp, nested tuples of length
+    0, 1, 2 and 4 — they serialise over tree cells, so the theorem speaks about them and the parser returns them. -/
+def leaf : Cell := .mk (-1) [true, false, true] []
+def sampleVals : List (Val Cell) :=
+  [ .null, .int 0, .int (-1), .int (2 ^ 63 - 1), .int (-(2 ^ 63)), .int (2 ^ 63), .int (-(2 ^ 256)),
+    .cell leaf, .slice [true, true, false] [leaf], .builder [false, true] [leaf, leaf],
+    .tuple [], .tuple [.int 7], .tuple [.null, .tuple [.int 1, .tuple []]],
+    .tuple [.int 4, .int 3, .tuple [.int 2, .cell leaf, .slice [] []], .int 1] ]
+def sampleConts : List (Val Cell) :=
+  [ .cont (.quit (-5)), .cont .quitExc,
+    .cont (.std (.mk (some 3) (some [.int 9, .tuple [.int 8, .null]]) (some leaf) (some (-2))) [true] [leaf]),
+    .cont (.envelope (.mk none none none none) (.pushint 11 .quitExc)),
+    .cont (.repeat_ 5 (.quit 1) (.again (.quit 2))),
+    .cont (.until_ (.quit 3) .quitExc),
+    .cont (.whileCond (.quit 4) .quitExc (.quit 5)),
+    .cont (.whileBody .quitExc (.quit 6) (.envelope (.mk (some 0) (some []) none (some 0)) (.quit 7))) ]
+
+/-- `sampleVals` serialises (kernel evaluation of the model serialiser) -/
+theorem sampleVals_serialises : (serialize mkTree sampleVals).isSome = true := by decide +kernel
+/-- `sampleConts` serialises -/
+theorem sampleConts_serialises : (serialize mkTree sampleConts).isSome = true := by decide +kernel
+
+example : ∃ c, serialize mkTree sampleVals = some c ∧
+    ∀ fuel, 72 ≤ fuel → deserialize viewTree ordTree fuel c = some sampleVals := by
+  obtain ⟨c, hc⟩ := Option.isSome_iff_exists.mp sampleVals_serialises
+  have hb : fuelL sampleVals = 72 := by decide
+  exact ⟨c, hc, fun fuel hf => c17_roundtrip treeLaws sampleVals c hc fuel (by omega)⟩
+
+example : ∃ c, serialize mkTree sampleConts = some c ∧
+    ∀ fuel, 55 ≤ fuel → deserialize viewTree ordTree fuel c = some sampleConts := by
+  obtain ⟨c, hc⟩ := Option.isSome_iff_exists.mp sampleConts_serialises
+  have hb : fuelL sampleConts = 55 := by decide
+  exact ⟨c, hc, fun fuel hf => c17_roundtrip treeLaws sampleConts c hc fuel (by omega)⟩
+
+/-- non-vacuity of `c17_parser_accepts_schema` on an encoding that is *not* produced by the serialiser: a slice value
+    whose `VmCellSlice` window starts inside the cell (`st_bits = 1`, `st_ref = 1`; the serialiser always writes 0).
+    Cell content: depth 1, reference to the empty rest list, tag 04, window [1,3) × [1,2) of `wide`. -/
+def wide : Cell := .mk (-1) [true, false, true, true] [leaf, leaf]
+def handMade : Cell :=
+  .mk (-1) (uintBits 24 1 ++ (tagByte 4 ++ (uintBits 10 1 ++ uintBits 10 3 ++ uintBits 3 1 ++ uintBits 3 2)))
+    [.mk (-1) [] [], wide]
+
+example : De.stack viewTree ordTree 3 ⟨(viewTree handMade).1, (viewTree handMade).2⟩ =
+    (⟨[], []⟩, some [Val.slice [false, true] [leaf]]) := by
+  have hs := IsCellSlice.mk (view := viewTree) wide 1 3 1 2 (by decide) (by decide) (by decide) (by decide)
+    (by decide) (by decide)
+  have hv := IsValue.slice (ord := ordTree) hs
+  have hl := IsStackList.cons (view := viewTree) (ord := ordTree) (n := 0) (rest := []) (.mk (-1) [] [])
+    IsStackList.nil hv
+  have h : IsStack viewTree ordTree [Val.slice [false, true] [leaf]] (viewTree handMade).1 (viewTree handMade).2 :=
+    IsStack.mk (vs := [Val.slice [false, true] [leaf]]) (by decide) hl
+  exact c17_parser_accepts_schema _ handMade h 3 (by decide)
+
+/-- `c17_roundtrip_fields` (the field-level statement underneath `c17_roundtrip`): what the serialiser writes for an
+    `intN` / `uintN` field and for a `VmCellSlice` record is read back by the parser's `load_int(n)` / `load_uint(n)` / `VmCellSlice.deserialize`
     as the same value, consuming exactly the field and leaving the rest of the slice untouched — for every width
     `n ≥ 1`, every in-range value (in particular int64 and int257 at ±2^63, ±2^256) and every slice. -/
-theorem c17_roundtrip_partial (L : Laws mk view ord) :
+theorem c17_roundtrip_fields (L : Laws mk view ord) :
     (∀ (n : Nat) (v : Int) (b : Builder R) (b1 : Builder R) (rest : Bits) (rs : List R), 0 < n →
         run (BOp.storeInt v n) b = some b1 →
         ∃ xs, b1.bits = b.bits ++ xs ∧ SOp.loadInt n (⟨xs ++ rest, rs⟩ : Slice R) = (⟨rest, rs⟩, some v)) ∧
